@@ -2,7 +2,7 @@
 """Regenerates /verif/MANIFEST.json from the table below (kept in one place so the manifest is always valid)."""
 import json, subprocess, sys
 
-HOOK_COMMITS = ["c491b67", "df520a4"]
+HOOK_COMMITS = ["c491b67", "df520a4", "6c4e0a6"]
 
 NA = {
  "C10": "pattern grammar: parseRoute is a pure function of one string and two integer limits; no schedule, history, clock or fault for a simulator to control (a slice of the grammar is exercised inside the C02 model, not claimed)",
@@ -14,12 +14,39 @@ NA = {
 
 # id: (engine, level, technique, text, note, design_ref)
 CHECKS = {
+ "C01": ("seq", "exploration", "deterministic simulation: seeded mutation histories + probe requests refined against an independent reference matcher through every entry point; shrinking + exact replay",
+         "The tree is whatever a seeded history of inserts, updates, deletes, truncations and aborted transactions left behind, read through recycled request contexts; every probe is routed through Lookup, Reverse, Iter.Reverse and ServeHTTP (router, read-only and open write transactions) and compared with a structurally different reference matcher plus the substitution round-trip. Sampling over history x request; the exhaustive small-alphabet part of the quantifier is model checking and is not done.",
+         "trusts the reference matcher in harness/model (token trie, depth-first static > param > catch-all) and the stated tolerance for captures starting with '/'", "6 C01"),
  "C02": ("seq", "exploration", "deterministic simulation: seeded operation/transaction-fault histories refined step by step against a sequential map model, shrinking + exact replay",
          "Seeded histories of every mutating entry point (direct and in transactions ended by commit, abort, returned error and injected panic) are executed on the real router; every return value, error class, conflict list and a full observation sweep are compared with a sequential map after each step. Sampling, not proof: right level because the property quantifies over unbounded histories.",
          "trusts the reference map/conflict rule in harness/model and the pool generator's reach (<=6 segments, 3 methods)", "6 C02"),
+ "C03": ("seq+conc", "exploration", "deterministic simulation: snapshot self-consistency over seeded histories; seeded cooperative schedules of snapshot holders vs writers; same schedules under the race detector (HB mode)",
+         "Every live snapshot (Iter, read-only Txn, Txn.Snapshot, Txn.Iter, held Lookup context, parked handler, View) is re-observed in full after every later operation and compared with its own first observation; concurrent holders re-observe between writer steps under a seeded scheduler; HB mode reports any store into memory reachable from a published root as a data race with both stacks in fox.",
+         "self-consistency needs no model; the copy cache is shrunk through the verif knob instead of running 4096-node transactions", "6 C03"),
+ "C04": ("seq+conc", "fault_enumeration", "deterministic simulation with enumerated fault points: every transaction ending (commit/abort/error/panic) after every prefix of each generated program, observed by a second scheduled task; porcupine over concurrent histories",
+         "For each generated transaction program all endings at all positions are enumerated; the transaction's own view, the router's view from a second task, the all-or-nothing outcome, refusal of settled and read-only transactions and the release of the writer lock (deadlock detector) are checked; multi-route transactions next to snapshot readers are checked for linearizability. Enumeration is complete per program, programs are sampled.",
+         "programs of <= 6 operations; trusts the sequential map model and porcupine", "6 C04"),
+ "C05": ("conc", "exploration", "deterministic simulation: seeded cooperative scheduler over mechanically inserted yield points at every lock/unlock/load/store; porcupine linearizability of recorded histories; deterministic data-race detection (HB mode)",
+         "1-3 writers and 1-3 readers on keys sharing tree nodes run under a scheduler that decides every switch from the seed; invoke/return stamps are global event numbers; the history plus a final audit must be linearizable w.r.t. a sequential map + reference dispatcher; any panic or fatal error in fox is a violation; the same schedules run under -race with simulator hand-offs hidden so that only fox's own synchronisation orders its accesses.",
+         "yield points are inserted around every Lock/Unlock/Load/Store call of a scratch copy at build time; code between two such points is atomic to the plain-mode scheduler (HB mode does not need a switch at the exact spot)", "6 C05"),
+ "C06": ("conc", "exploration", "deterministic simulation: writer parked at every stage of a transaction's life by the scheduler while reader tasks must run to completion; lock-wait and blocked-goroutine detection",
+         "A writer is held at a drawn stage (lock taken, root loaded, after k writes, inside Updates, after Snapshot/Iter, at commit, before/after the store, before unlock) until every reader finished one to three read entry points; a reader that waits for the writer lock (instrumented Lock) or blocks in any sync primitive (stack sampling) is a violation; the converse (readers parked, writers must finish) is checked too.",
+         "dynamic reach only: the static call-graph half of the quantifier is not addressed", "6 C06"),
+ "C07": ("seq", "exploration", "deterministic simulation: differential run of two real routers (seeded mutation history vs fresh insertion in random order), no model in the comparison",
+         "Two fox routers holding the same set by different histories must answer every probe alike through Lookup, Reverse and ServeHTTP. No oracle beyond equality, so an alarm is always a real divergence.",
+         "probes derived from the pool; sets <= 14 routes (+fan-out)", "6 C07"),
+ "C08": ("seq", "exploration", "deterministic simulation: seeded histories + slash-toggled and percent-encoded probes against the reference dispatcher; redirects followed inside the simulation; metamorphic irrelevant-route removal",
+         "Which route is offered as slash-adjusted candidate, with which parameters, what the dispatcher does with it (ignore, redirect 301/308 only for clean non-root paths and never for CONNECT, unmatched) and where Location leads (resolved and served inside the simulation) are compared with the reference; three genuine detection defects of the pinned tree are listed as known findings with structural classifiers, everything else is a violation.",
+         "trusts the reference matcher's trailing-slash rule (toggle the final slash; an added slash must pair with a literal '/' of the pattern); known findings in known_findings.json", "6 C08"),
+ "C09": ("seq", "exploration", "deterministic simulation: seeded histories over mixed hostname/path-only pools, Host header variants (exact, port, trailing dot, extended, truncated, literals) against the reference host rules; metamorphic host-ignored clause",
+         "Whole-host matching is universal over Host strings; the check samples near-miss variants around every registered hostname on trees shaped by histories and compares all entry points with the reference.",
+         "hosts lower case; slash-adjusted hostname candidates are judged by C08", "6 C09"),
+ "C11": ("seq", "exploration", "deterministic simulation: seeded histories x the four option combinations x methods incl. OPTIONS/'*'/methods without routes against the reference dispatcher (handler kind, Allow as a set, scrubbed context, scope)",
+         "Which special handler answers an unserved request, the exact Allow set and the context it sees are compared with the reference over arbitrary tables; per-method answers that fall in a listed C08 finding are taken from fox and counted.",
+         "Allow composition is judged even where the per-method routing answer is a known C08 finding", "6 C11"),
 }
 
-PENDING = {'C01': 'check under construction in this revision; not claimed yet', 'C03': 'check under construction in this revision; not claimed yet', 'C04': 'check under construction in this revision; not claimed yet', 'C05': 'check under construction in this revision; not claimed yet', 'C06': 'check under construction in this revision; not claimed yet', 'C07': 'check under construction in this revision; not claimed yet', 'C08': 'check under construction in this revision; not claimed yet', 'C09': 'check under construction in this revision; not claimed yet', 'C11': 'check under construction in this revision; not claimed yet', 'C12': 'check under construction in this revision; not claimed yet', 'C13': 'check under construction in this revision; not claimed yet', 'C14': 'check under construction in this revision; not claimed yet', 'C15': 'check under construction in this revision; not claimed yet', 'C20': 'check under construction in this revision; not claimed yet'}  # id -> reason while a check is being built
+PENDING = {'C12': 'check under construction in this revision; not claimed yet', 'C13': 'check under construction in this revision; not claimed yet', 'C14': 'check under construction in this revision; not claimed yet', 'C15': 'check under construction in this revision; not claimed yet', 'C20': 'check under construction in this revision; not claimed yet'}  # id -> reason while a check is being built
 
 def main():
     checks = []
@@ -44,6 +71,7 @@ def main():
     for pid, c in CHECKS.items():
         engines.setdefault(c[0], []).append(pid)
     kinds = {
+      "seq+conc": "both of the engines below, chosen per run",
       "seq": "sequential refinement engine: seeded histories on the real router, compared operation by operation with the reference model",
       "conc": "cooperative one-task-at-a-time scheduler over fox's verif yield points; seeded schedules; porcupine linearizability; HB mode = same schedules under -race with simulator hand-offs hidden",
       "io": "simulated connection and sources with injected short writes/errors; writer-call histories with enumerated fault positions",
